@@ -654,8 +654,10 @@ equal ids, and after the relabelling that follows a vertex removal the old id is
 and is false on every lock-step run), then in the final roadmap (a) every edge joins two vertices with the same component
 id, (b) ids in use are below `componentCount_`, and (c) **two vertices of the graph with the same component id are
 connected** by a walk of current edges.  What is *not* kept sound by the code is `componentSize_`: removed vertices are
-never subtracted from their component's size (it only steers which side `uniteComponents` relabels).  The self-checks
-stand in for a proof that `markLoop`'s fuel (2·|E| + 2 pops) always suffices. -/
+never subtracted from their component's size (it only steers which side `uniteComponents` relabels).  That `markLoop`'s
+fuel (2·|E| + 2 pops) always suffices is proved below (`lazyprm_relabel_fuel_sufficient`), which makes the `checkSame` half of
+the self-check redundant; the `checkNone` half (after a vertex removal no vertex of the graph keeps the old id) is still a
+hypothesis. -/
 theorem lazyprm_components_sound (cfg : LazyPRM.Cfg S D) (starts : Array S) (ptc : Nat) (evs : List (LazyPRM.Event S))
     (hst : (LazyPRM.solve cfg starts ptc evs).rm.stale = false) :
     (∀ e ∈ (LazyPRM.solve cfg starts ptc evs).rm.edges,
